@@ -47,6 +47,9 @@ func SyntheticRegistriesFor(run *core.Run, p *Preset, thorough bool, st *SynthSt
 	if prop == "C08" {
 		hook = ContextHook
 	}
+	if prop == "C01" {
+		hook = func(*Node, uint64) []HookFinding { return nil }
+	}
 	w := NewWorld(p, run.Seed, 48)
 	c := w.C
 	g, err := w.Genesis()
@@ -112,7 +115,11 @@ func SyntheticRegistriesFor(run *core.Run, p *Preset, thorough bool, st *SynthSt
 		for _, size := range sizes {
 			for _, ep := range effs {
 				for _, ap := range acts {
-					for _, balMode := range []string{"balances = effective balances", "balances of the neighbour"} {
+					balModes := []string{"balances = effective balances", "balances of the neighbour"}
+					if prop == "C01" {
+						balModes = []string{"balances = effective balances + 1.1 increments", "balances of the neighbour"}
+					}
+					for _, balMode := range balModes {
 						if run.Expired() {
 							run.CapHit("synthetic registries: time budget")
 							return
@@ -142,8 +149,11 @@ func SyntheticRegistriesFor(run *core.Run, p *Preset, thorough bool, st *SynthSt
 							v := &ref.Validators[i]
 							v.EffectiveBalance = ep.eff(i, size) * c.EffectiveBalanceIncrement
 							ref.Balances[i] = v.EffectiveBalance
-							if balMode != "balances = effective balances" {
+							switch balMode {
+							case "balances of the neighbour":
 								ref.Balances[i] = ep.eff((i+1)%size, size) * c.EffectiveBalanceIncrement
+							case "balances = effective balances + 1.1 increments":
+								ref.Balances[i] = v.EffectiveBalance + c.EffectiveBalanceIncrement*11/10
 							}
 							v.ActivationEpoch, v.ExitEpoch = ap.f(i, size, cur)
 							v.ActivationEligibilityEpoch = 0
@@ -162,8 +172,14 @@ func SyntheticRegistriesFor(run *core.Run, p *Preset, thorough bool, st *SynthSt
 								atomic.AddInt64(&st.Skipped, 1)
 								continue
 							}
-							sc := w.Env.NextSyncCommittee(ref)
-							ref.CurrentSyncCommittee, ref.NextSyncCommittee = sc, sc
+							// two DIFFERENT committees of this registry (the next one sampled under another randao mix), so
+							// that a context that mixes them up is noticed
+							ref.CurrentSyncCommittee = w.Env.NextSyncCommittee(ref)
+							alt := ref.Copy(c)
+							for k := range alt.RandaoMixes {
+								alt.RandaoMixes[k][0] ^= 0x5a
+							}
+							ref.NextSyncCommittee = w.Env.NextSyncCommittee(alt)
 						}
 						desc := fmt.Sprintf("preset %s, base slot %d (%s), %d validators, effective balances %s, %s, activity %s", p.Name, base.Ref.Slot, refspec.ForkNames[ref.F], size, ep.name, balMode, ap.name)
 						rep := func(sig, msg string) {
@@ -209,6 +225,25 @@ func SyntheticRegistriesFor(run *core.Run, p *Preset, thorough bool, st *SynthSt
 								rep("sync-sampling", fmt.Sprintf("ComputeSyncCommitteeIndices(next epoch) = %v (err %v), get_next_sync_committee_indices: %v", got, serr, want))
 								continue
 							}
+						}
+						if prop == "C01" {
+							// a default block on the synthetic state (withdrawals, rewards, sync aggregate over this registry)
+							if len(ref.ActiveIndices(cur)) == 0 {
+								continue
+							}
+							b := node.Branch()
+							atomic.AddInt64(&st.Transitions, 1)
+							// four consecutive blocks: the withdrawal sweep (4 validators per block) passes over the whole small registry
+							for k := uint64(1); k <= 4; k++ {
+								atomic.AddInt64(&st.Transitions, 1)
+								if r := b.StepBlock(ctx, ref.Slot+k, &Plan{Name: "default"}); r.Mismatch != "" {
+									if !r.Skipped {
+										rep("block/"+r.Sig, r.Mismatch)
+									}
+									break
+								}
+							}
+							continue
 						}
 						// two epoch transitions, compared after every slot
 						end := (cur + 2) * c.SlotsPerEpoch
